@@ -2589,11 +2589,10 @@ class Scan(Generic[X, R], GFI[X, R]):
         )
 
         total_weight = jnp.sum(weights)
-        # discards will be vectorized, so we need to handle them appropriately
-        any_discards = jnp.any(jtu.tree_map(lambda x: x is not None, discards))
 
         new_tr = ScanTr(self, (args, kwargs), new_traces, final_carry, outs)
-        return new_tr, total_weight, discards if any_discards else None
+        # discards are stacked along the scan axis by `scan` (like Scan.update)
+        return new_tr, total_weight, discards
 
 
 ########
